@@ -318,6 +318,10 @@ class MinGenSet():
         """
         start_time = time.perf_counter()
 
+        # A previous successful solve() must not make this run look solved if it ends inconclusively
+        self._is_solved = False
+        self._solution = None
+
         # Solve for increasing numbers of elements in the generating set
         for k in range(self.lowerbound, max(self.lowerbound+1, len(self.initial_numbers)+2)):
             self._create_solver(k=k)
